@@ -15,7 +15,7 @@ from harness.common import Report  # noqa: E402
 
 LEVELS = {
     "C06": "proof",
-    "C01": "proof", "C02": "proof", "C03": "proof", "C18": "proof", "C08": "proof", "C09": "proof", "C10": "proof", "C14": "proof",
+    "C01": "proof", "C02": "proof", "C03": "proof", "C18": "proof", "C08": "proof", "C09": "proof", "C10": "proof", "C14": "proof", "C05": "proof",
     "C16": "translation_validation",
 }
 
